@@ -31,7 +31,31 @@ pub fn lit(text: &str) -> Option<Decimal> {
     if t.ends_with('.') {
         t.pop();
     }
-    Decimal::from_str_exact(&t).ok()
+    if let Ok(d) = Decimal::from_str_exact(&t) {
+        return Some(d);
+    }
+    // more than 28 digits after the point, yet at most 28 significant ones (leading zeros are not significant) and a
+    // value that a Decimal holds once the redundant trailing zeros are dropped: C19 fixes the value of these too
+    // (0.00000000000000000000000000010 is 1e-28)
+    let (int_part, frac_part) = match t.split_once('.') {
+        Some((a, b)) => (a, b),
+        None => (t.as_str(), ""),
+    };
+    if !int_part.bytes().chain(frac_part.bytes()).all(|b| b.is_ascii_digit()) {
+        return None;
+    }
+    let all: String = format!("{}{}", int_part, frac_part);
+    let significant = all.trim_start_matches('0').len();
+    if significant > 28 {
+        return None;
+    }
+    let frac = frac_part.trim_end_matches('0');
+    if frac.len() > 28 {
+        return None;
+    }
+    let digits = format!("{}{}", int_part, frac);
+    let m: i128 = digits.trim_start_matches('0').parse().unwrap_or(0);
+    Decimal::try_from_i128_with_scale(m, frac.len() as u32).ok()
 }
 
 /// the double nearest to the decimal value (through its text: rust_decimal's own to_f64 can be an ulp off,
